@@ -20,50 +20,12 @@ var augCheck = &core.Check{Name: "c05/aug", Quick: 1500, Thorough: 120000, Fn: f
 	if wide {
 		n = 256
 	}
-	keys := drawKeys(c, n, core.Scale(16, 48), nil)
-	if len(keys) == 0 {
-		keys = []ref.Bits{make(ref.Bits, n)}
-	}
-	equalValues := c.Intn("equalvalues", 3) == 0 // equal leaves under one fork are one cell after parsing
-	if equalValues {
-		c.Class("all values equal")
-	}
-	model := map[string]uint32{}
-	var entries []ref.DictEntry
-	for _, k := range keys {
-		v := uint32(c.U64("val"))
-		if equalValues {
-			v = 7
-		}
-		model[k.String()] = v
-		entries = append(entries, ref.DictEntry{Key: k, Value: ref.DictValue{Bits: ref.Bits{}.AppendUint(uint64(v), 32)}})
-	}
-	leafExtra := func(e ref.DictEntry) ref.Bits { return ref.Bits{}.AppendUint(e.Value.Bits.Uint(0, 32)&0xff, 8) }
-	if equalValues {
-		leafExtra = func(ref.DictEntry) ref.Bits { return ref.Bits{}.AppendUint(1, 8) }
-	}
-	forkExtra := func(l, r ref.Bits) ref.Bits { return ref.Bits{}.AppendUint((l.Uint(0, 8)+r.Uint(0, 8))&0xff, 8) }
-	if equalValues {
-		forkExtra = func(l, r ref.Bits) ref.Bits { return ref.Bits{}.AppendUint(1, 8) } // keeps equal subtrees equal
-	}
-	var choose func(ref.Bits, int, []int) int
-	if c.Bool("forms") {
-		choose = func(s ref.Bits, m int, forms []int) int { return forms[c.Choose("form", len(forms))] }
-	}
-	root, rootExtra, err := ref.EncodeHashmapAug(entries, n, leafExtra, forkExtra, choose)
+	cells, data, model, rootHash, err := buildAug(c, n)
 	if err != nil {
-		return fmt.Errorf("HARNESS: %v", err)
+		return err
 	}
-	// HashmapAugE: ahme_root$1 root:^(HashmapAug n X Y) extra:Y
-	top := ref.NewRCell(append(ref.Bits{true}, rootExtra...), false, root)
-	data := ref.SerializeBOC([]*ref.RCell{top}, ref.BocVariant{})
-	cells, err := boc.DeserializeBoc(data)
-	if err != nil {
-		return fmt.Errorf("HARNESS: %v", err)
-	}
-	c.Note("keys", len(keys))
-	c.Note("key_bits", n)
-	c.NonTrivial(root.ReprHash())
+	c.NonTrivial(rootHash)
+	keys := make([]struct{}, len(model))
 	var gotKeys []ref.Bits
 	var gotVals []uint32
 	if wide {
@@ -116,6 +78,55 @@ var augCheck = &core.Check{Name: "c05/aug", Quick: 1500, Thorough: 120000, Fn: f
 	}
 	return nil
 }}
+
+// buildAug draws a key set of n-bit keys with 32-bit values and 8-bit extras, writes it as a HashmapAugE with the
+// reference encoder (drawn label forms or canonical) and parses the bag of cells with the library.
+func buildAug(c *core.Ctx, n int) (cells []*boc.Cell, data []byte, model map[string]uint32, rootHash []byte, err error) {
+	keys := drawKeys(c, n, core.Scale(16, 48), nil)
+	if len(keys) == 0 {
+		keys = []ref.Bits{make(ref.Bits, n)}
+	}
+	equalValues := c.Intn("equalvalues", 3) == 0 // equal leaves under one fork are one cell after parsing
+	if equalValues {
+		c.Class("all values equal")
+	}
+	model = map[string]uint32{}
+	var entries []ref.DictEntry
+	for _, k := range keys {
+		v := uint32(c.U64("val"))
+		if equalValues {
+			v = 7
+		}
+		model[k.String()] = v
+		entries = append(entries, ref.DictEntry{Key: k, Value: ref.DictValue{Bits: ref.Bits{}.AppendUint(uint64(v), 32)}})
+	}
+	leafExtra := func(e ref.DictEntry) ref.Bits { return ref.Bits{}.AppendUint(e.Value.Bits.Uint(0, 32)&0xff, 8) }
+	if equalValues {
+		leafExtra = func(ref.DictEntry) ref.Bits { return ref.Bits{}.AppendUint(1, 8) }
+	}
+	forkExtra := func(l, r ref.Bits) ref.Bits { return ref.Bits{}.AppendUint((l.Uint(0, 8)+r.Uint(0, 8))&0xff, 8) }
+	if equalValues {
+		forkExtra = func(l, r ref.Bits) ref.Bits { return ref.Bits{}.AppendUint(1, 8) } // keeps equal subtrees equal
+	}
+	var choose func(ref.Bits, int, []int) int
+	if c.Bool("forms") {
+		choose = func(s ref.Bits, m int, forms []int) int { return forms[c.Choose("form", len(forms))] }
+	}
+	root, rootExtra, err := ref.EncodeHashmapAug(entries, n, leafExtra, forkExtra, choose)
+	if err != nil {
+		return nil, nil, nil, rootHash, fmt.Errorf("HARNESS: %v", err)
+	}
+	// HashmapAugE: ahme_root$1 root:^(HashmapAug n X Y) extra:Y
+	top := ref.NewRCell(append(ref.Bits{true}, rootExtra...), false, root)
+	data = ref.SerializeBOC([]*ref.RCell{top}, ref.BocVariant{})
+	cells, err = boc.DeserializeBoc(data)
+	if err != nil {
+		return nil, nil, nil, rootHash, fmt.Errorf("HARNESS: %v", err)
+	}
+	c.Note("keys", len(keys))
+	c.Note("key_bits", n)
+	return cells, data, model, root.ReprHash(), nil
+}
 
 func modelSortedPlain(model map[string]uint32) []ref.DictEntry {
 	old := refValues
